@@ -31,7 +31,7 @@ ASSUMPTIONS = [
     "'immediate succession' = the second copy is delivered at the same clock reading as the first, before any other block of the instance runs",
     "observable behaviour = datagrams sent (time, destination address and port, decoded content with the three record sections merged and sorted) + ServiceListener / browser-handler callbacks per listener + lookup results + loop exception handler; the number of RecordUpdateListener invocations is compared too (an internal listener interface, but doubled record-manager rounds show there first)",
     "every delivery is a fresh bytes object (equal, never identical), as every recvfrom of a socket is",
-    "recorded findings D11 / D11b: deliveries in their input class are spared in the main comparison; in the run that spares nothing (made for every case) their second copy gets the local oracle (no callback, <= 1 unicast datagram and only to the querier's address and port, multicast only of the predicted records in no more datagrams than the first copy sent, cache and queues unchanged) and the run's difference from the reference is filed under the finding only if its FIRST departure has the shape the finding predicts (classify_full_difference); anything else is a fresh violation",
+    "recorded findings D11 / D11b: deliveries in their input class are spared in the main comparison; in the run that spares nothing (made for every case) their second copy gets the local oracle (no callback, <= 1 unicast datagram, only to the querier's address and port and carrying nothing the first copy's unicast answer did not carry, multicast only of the predicted records -- compared as they go on the wire: name, type, class, flush bit, TTL, rdata -- in no more datagrams than the first copy sent, cache unchanged, no answer taken out of the multicast queues, queues unchanged unless the finding is D11b) and the run's difference from the reference is filed under the finding only if its FIRST departure has the shape the finding predicts (classify_full_difference); anything else is a fresh violation",
     "identical random seeds = every random draw is a function of (seed, virtual time, index of the draw within that instant, interval)",
 ]
 
@@ -314,6 +314,7 @@ def shadow_apply(shadow, data, now, own=None):
     answers = m.answers()
     here = {ident(r) for r in answers}
     uniq, removes = set(), []
+    orig, positive = {}, {}     # what the history said of a record before this datagram; records the datagram carries with a positive TTL
     for r in answers:
         ttl = int(r.ttl)
         if ttl and r.type == 12 and ttl < 1125:
@@ -321,8 +322,10 @@ def shadow_apply(shadow, data, now, own=None):
         if r.unique:
             uniq.add((r.name.lower(), r.type, r.class_))
         k = ident(r)
+        orig.setdefault(k, shadow.get(k))
         if ttl > 0:
             shadow[k] = (now, ttl)
+            positive[k] = ttl
         elif k in shadow and not (own is not None and k in own):
             # (`own`: the datagram is the instance's own looped-back multicast and the record is one a registered service of
             # the instance still stands for: a goodbye for it is not a withdrawal the instance may rely on -- its last multicast
@@ -342,6 +345,17 @@ def shadow_apply(shadow, data, now, own=None):
             else:
                 del shadow[k]     # purged long ago: nothing to flush
     for k in removes:
+        if k in positive:
+            # the same datagram withdraws the record *and* carries it with a positive TTL.  The record manager removes what it withdraws
+            # last -- if the cache held the record when the datagram arrived; a record that had run out and been purged is not
+            # withdrawn (the goodbye finds nothing), the positive copy is added and stays
+            old = orig.get(k)
+            expired_for = None if old is None else now - (old[0] + 1000 * old[1])
+            if old is None or expired_for > CLEANUP_MS:
+                continue
+            if expired_for >= 0:
+                shadow[k] = (now, positive[k], "unknown")    # run out, perhaps not purged yet: the history cannot tell
+                continue
         shadow.pop(k, None)
 
 
@@ -354,7 +368,7 @@ def shadow_recent(shadow, rec, now):
     if v is None:
         return False
     if len(v) > 2 and v[0] + 1000 * v[1] > now - CLEANUP_MS:
-        return None
+        return None     # (marked "unknown" in `shadow_apply`: until it has run out and must have been purged)
     return v[0] + 250 * v[1] > now
 
 
@@ -962,6 +976,21 @@ def classify_full_difference(case, ref, full):
             if recs_of(ev) <= later:
                 return D11B_SIG, {"first_difference": [kind, ev], "culprit": near[-1]}
             return "C16:qu-duplicate-loses-queued-multicast-answer", {"first_difference": [kind, ev], "never_sent": sorted(recs_of(ev) - later)[:4]}
+        # the doubled queueing of a D11b query draws one more random delay; the draws of this harness are keyed by their index within
+        # the instant, so answers queued *at that same instant* for a later packet get another jitter (a real network gives no such
+        # guarantee either): the reference's datagram goes out unchanged, up to 100 ms (the width of the 20-120 ms jitter) earlier or
+        # later, both instants inside the jitter window (or that window + 1 s, the last-second protection) counted from the D11b query
+        md = case.get("maxdelay", 0)
+
+        def in_jitter(dt):
+            return 20 <= dt <= 120 + md or 1020 <= dt <= 1120 + md
+
+        other = ref["sends"] if kind == "extra" else full["sends"]
+        for x in other:
+            if x[1:] == ev[1:] and x[0] != t0 and abs(x[0] - t0) <= 100:
+                for sg in near:
+                    if in_jitter(t0 - sg["t"]) and in_jitter(x[0] - sg["t"]):
+                        return D11B_SIG, {"first_difference": [kind, ev], "culprit": sg, "same_datagram_with_another_jitter_at": x[0]}
     if self_extra:
         return OWN_QU, {"first_difference": [kind, ev]}
     return "C16:qu-duplicate-difference-not-predicted-by-a-finding", {"first_difference": [kind, ev],
